@@ -327,7 +327,11 @@ def run(ctx):
                             raise MachineryError(f"oracle disagreement spec vs CPython on {src!r} x={x}: spec {enc} vs python {py}")
                         nontrivial = True
                     got = outcome(lambda: expr(x))
-                    ok = (got[0] == py[0]) and (same(got[1], py[1]) if py[0] == "val" else got[1] == py[1])
+                    # the property constrains VALUES: where Python raises, the expression must raise too (the class of the exception is not
+                    # part of the statement; a differing class is counted, not judged)
+                    ok = (got[0] == py[0]) and (same(got[1], py[1]) if py[0] == "val" else True)
+                    if ok and py[0] == "err" and got[1] != py[1]:
+                        ctx.notes["exception_class_differs"] = ctx.notes.get("exception_class_differs", 0) + 1
                     if not ok:
                         ctx.report(f"value:{src}:{x}", f"Expression({src!r})({x}) = {got} but Python gives {py} (spec {enc})",
                                    {"src": src, "x": list(x), "spec": enc})
@@ -424,7 +428,9 @@ def run(ctx):
                 for x in [(), (1,), (0, 2), (2, 1, 0)]:
                     py = outcome(lambda: eval(src, {"__builtins__": {}}, {"x": x}))
                     got = outcome(lambda: r[1](x))
-                    ok = (got[0] == py[0]) and (same(got[1], py[1]) if py[0] == "val" else (got[1] == py[1] or py[1] in ("OverflowError", "MemoryError")))
+                    ok = (got[0] == py[0]) and (same(got[1], py[1]) if py[0] == "val" else True)
+                    if ok and py[0] == "err" and got[1] != py[1]:
+                        ctx.notes["exception_class_differs"] = ctx.notes.get("exception_class_differs", 0) + 1
                     if not ok:
                         ctx.report(f"value:{src}:{x}", f"Expression({src!r})({x}) = {got} but Python gives {py}", {"src": src, "x": list(x)})
                         break
